@@ -300,4 +300,22 @@ Section ReduceProofs.
     { apply (find_none _ _ H c). apply (up_path_complete par depth depth_dec); auto. }
     apply mem_false_In in Hf. apply Hf. apply (up_path_complete par depth depth_dec); auto.
   Qed.
+  Lemma mrca_lowest a b m c : mrca par fuel a b = Some m ->
+    aos par c a -> aos par c b -> aos par c m.
+  Proof.
+    unfold mrca. intros H H1 H2.
+    apply (find_up_path_lowest par _ fuel a m c H).
+    - apply (up_path_complete par depth depth_dec); auto.
+    - apply mem_In. apply (up_path_complete par depth depth_dec); auto.
+  Qed.
+  Lemma mrca_correct a b :
+    (forall m, mrca par fuel a b = Some m ->
+       aos par m a /\ aos par m b /\ forall c, aos par c a -> aos par c b -> aos par c m) /\
+    (mrca par fuel a b = None -> forall c, ~ (aos par c a /\ aos par c b)).
+  Proof.
+    split.
+    - intros m H. destruct (mrca_is_common a b m H) as [H1 H2]. repeat split; auto.
+      intros c. apply mrca_lowest. exact H.
+    - apply mrca_none.
+  Qed.
 End ReduceProofs.
